@@ -51,6 +51,18 @@ def find (r : Rx) : Bytes → Option Bytes
     | some m => some m
     | none => find r s
 
+/-- the search under `NewParser`'s left guard `(?:^|[^0-9])(?P<date>…)` (leftmost-first over the whole pattern): the date
+may start at the beginning of the text or right after a byte that is not a digit; `guard = false` is the plain search.
+`pd` = the byte before the current position is a digit. -/
+def findFrom (guard : Bool) (r : Rx) : Bool → Bytes → Option Bytes
+  | pd, [] => if guard && pd then none else matchAt r []
+  | pd, x :: s =>
+    match (if guard && pd then none else matchAt r (x :: s)) with
+    | some m => some m
+    | none => findFrom guard r (decide (48 ≤ x) && decide (x ≤ 57)) s
+
+def findG (guard : Bool) (r : Rx) (s : Bytes) : Option Bytes := findFrom guard r false s
+
 /-! ## regexp text → `Rx` -/
 
 def rxPow (a : Rx) : Nat → Rx
